@@ -165,6 +165,7 @@ type DJob struct {
 	User       string
 	Tasks      []DTask
 	Env        map[string]string
+	Bad        bool   // carries the reserved variable (its graph cannot be built)
 	Stages     string // stage statuses of the execution graph, if the job has a poll loop registered
 }
 
@@ -254,6 +255,9 @@ func (w *World) dump() *Dump {
 			Idx: jobIndex(j.ID), Pipeline: j.Pipeline, Completed: j.Completed, Canceled: j.Canceled,
 			Created: j.Created.Sub(w.S.Base()), Start: rel(j.Start), End: rel(j.End), StartDelay: j.StartDelay,
 			LastError: j.LastError, HasSched: j.HasSched, HasTimer: j.HasTimer, User: j.User, Env: j.Env,
+		}
+		if _, bad := j.Variables[taskctl.JobIDVariableName]; bad {
+			dj.Bad = true
 		}
 		for _, t := range j.Tasks {
 			dj.Tasks = append(dj.Tasks, DTask{Name: t.Name, Status: t.Status, HasStart: t.HasStart, HasEnd: t.HasEnd,
@@ -600,7 +604,7 @@ func NewWorld(opts WorldOpts) *World {
 	if w.R == nil {
 		panic(fmt.Sprintf("NewPipelineRunner failed: %v", w.initErr))
 	}
-	if opts.DumpOnUnlock {
+	if true {
 		mx := prunner.VerifMx(w.R)
 		w.S.OnUnlock = func(obj interface{}) {
 			if obj == mx {
